@@ -60,6 +60,7 @@ registry! {
     c34::C34,
     c35::C35,
     c36::C36,
+    c37::C37,
     c38::C38,
     c39::C39,
     c40::C40,
